@@ -236,6 +236,26 @@ impl<S: ShortGroupSignatureScheme> Scn<S> {
         Scn { mix: mix.clone(), issuers, publics, bundles, sig_ids, schema, credentials, nonce, stmt_ids }
     }
 
+    /// a second commitment statement `com1` next to `com0`: same blinder generator, on claim `claim` of credential 0,
+    /// with `com0`'s message generator or a fresh one
+    pub fn add_second_commitment(&mut self, rng: &mut Rng, claim: usize, same_message_generator: bool) {
+        let c0 = match self.schema.statements.get("com0") {
+            Some(Statements::Commitment(c)) => c.clone(),
+            _ => return,
+        };
+        let st = CommitmentStatement {
+            id: "com1".into(),
+            reference_id: c0.reference_id.clone(),
+            message_generator: if same_message_generator { c0.message_generator } else { g1_from_dl(rng.scalar()) },
+            blinder_generator: c0.blinder_generator,
+            claim,
+        };
+        let mut stmts: Vec<Statements<S>> = self.schema.statements.values().cloned().collect();
+        stmts.push(st.into());
+        self.stmt_ids.push(("com1".into(), "commitment".into()));
+        self.schema = PresentationSchema::new_with_id(&stmts, &self.schema.id);
+    }
+
     pub fn create(&self) -> Out<Presentation<S>> {
         call(|| Presentation::create(&self.credentials, &self.schema, &self.nonce))
     }
